@@ -13,6 +13,7 @@ import (
 	"strconv"
 	"strings"
 	"sync"
+	"sync/atomic"
 	"time"
 
 	openfgav1 "github.com/openfga/api/proto/openfga/v1"
@@ -416,6 +417,18 @@ func famNames(filter func(*stepFamily) bool) []string {
 
 // ---------- parent side ----------
 
+var (
+	coverBinOnce sync.Once
+	coverBinPath string
+	coverBinErr  error
+)
+
+// coverBinary builds the coverage-instrumented driver once per run.
+func coverBinary(run *core.Run) (string, error) {
+	coverBinOnce.Do(func() { coverBinPath, coverBinErr = buildCoverBinary(run) })
+	return coverBinPath, coverBinErr
+}
+
 func buildCoverBinary(run *core.Run) (string, error) {
 	bin := filepath.Join(core.Root, "bin", "vcheck-cover")
 	if e := os.Getenv("VERIF_MODFILE"); e != "" {
@@ -430,6 +443,10 @@ func buildCoverBinary(run *core.Run) (string, error) {
 	}
 	return bin, nil
 }
+
+// totalityStall: how long the index logged by a totality worker may stand still before the input is handed to the
+// step counter (a suspicion threshold, not a verdict).
+var totalityStall = 3 * time.Minute
 
 // runTotality drives one stream [0,n) through child processes.
 func runTotality(run *core.Run, stream string, n int, batch int) {
@@ -453,9 +470,14 @@ func runTotality(run *core.Run, stream string, n int, batch int) {
 		}
 		jobs = append(jobs, rng{f, t})
 	}
+	var abandoned int32 // set once a call of this stream was shown not to return: one witness is enough
 	core.Parallel(len(jobs), func(j int) {
 		from, to := jobs[j].from, jobs[j].to
 		for from < to {
+			if atomic.LoadInt32(&abandoned) != 0 {
+				run.Count("totality_inputs_skipped_after_a_hang:"+stream, int64(to-from))
+				return
+			}
 			idxFile := filepath.Join(tmp, fmt.Sprintf("%s-%d.idx", stream, j))
 			os.Remove(idxFile)
 			spec, _ := json.Marshal(totalitySpec{Seed: run.Seed, Stream: stream, From: from, To: to, IndexFile: idxFile})
@@ -472,14 +494,37 @@ func runTotality(run *core.Run, stream string, n int, batch int) {
 			waitCh := make(chan error, 1)
 			go func() { waitCh <- cmd.Wait() }()
 			var werr error
-			timedOut := false
-			select {
-			case werr = <-waitCh:
-			case <-time.After(20 * time.Minute): // generous watchdog: firing is inconclusive, not a violation
-				cmd.Process.Kill()
-				werr = <-waitCh
-				timedOut = true
+			timedOut, stalled := false, false
+			// The child logs the index of the input it is working on. An index that does not move for several minutes
+			// (the inputs take milliseconds) makes the input a SUSPECT only: the verdict comes from the logical step
+			// counter below. The 20-minute cap stays as the generous outer watchdog whose firing is inconclusive.
+			lastIdx, lastMove := "", time.Now()
+			poll := time.NewTicker(3 * time.Second)
+		wait:
+			for {
+				select {
+				case werr = <-waitCh:
+					break wait
+				case <-poll.C:
+					b, _ := os.ReadFile(idxFile)
+					if cur := string(b); cur != lastIdx {
+						lastIdx, lastMove = cur, time.Now()
+					}
+					if lastIdx != "" && time.Since(lastMove) > totalityStall {
+						cmd.Process.Kill()
+						werr = <-waitCh
+						stalled = true
+						break wait
+					}
+					if time.Since(started) > 20*time.Minute {
+						cmd.Process.Kill()
+						werr = <-waitCh
+						timedOut = true
+						break wait
+					}
+				}
 			}
+			poll.Stop()
 			done := false
 			sc := bufio.NewScanner(&stdout)
 			sc.Buffer(make([]byte, 1<<22), 1<<22)
@@ -522,7 +567,30 @@ func runTotality(run *core.Run, stream string, n int, batch int) {
 			in := makeC08Input(run.Seed, stream, idx)
 			c := in.toCase()
 			c.Extra["seed"] = fmt.Sprint(run.Seed)
-			if timedOut {
+			if stalled {
+				// decide by logical steps: the same input alone under the step counter
+				run.Count("totality_stalls_handed_to_the_step_counter", 1)
+				verdict := "not reproduced"
+				if bin, berr := coverBinary(run); berr != nil {
+					run.Inconclusive("totality worker for %s stalled at input #%d and the step counter cannot be built: %v", stream, idx, berr)
+				} else {
+					for _, r := range runSteps(run, bin, []stepTask{{Stream: stream, Idx: idx, Seed: run.Seed, HangTimes: 2}}, 1) {
+						if r.Hang || float64(r.Steps) > 2*quadBudget(r.Len) {
+							verdict = "confirmed"
+							if known := knownSlowShape(in); known != "" {
+								if _, ok := run.FindingListed(known); ok {
+									run.Known(known)
+									verdict = "known finding " + known
+									break
+								}
+							}
+							atomic.StoreInt32(&abandoned, 1)
+							run.Violation("hang:"+stream, c, fmt.Sprintf("a result or an error within %.0f steps for %d bytes (twice the quadratic budget, 12x the worst legitimate family)", 2*quadBudget(r.Len), r.Len), fmt.Sprintf("the call was still running after %d steps (the totality worker had made no progress for %v before)", r.Steps, totalityStall))
+						}
+					}
+				}
+				run.Note("totality worker for %s made no progress for %v at input #%d: step counter says %s", stream, totalityStall, idx, verdict)
+			} else if timedOut {
 				run.Inconclusive("totality worker for %s stopped by the wall-clock watchdog after %v at input #%d (len %d)", stream, time.Since(started).Round(time.Second), idx, len(in.Text))
 			} else {
 				run.Violation("fatal-error:"+stream+":"+fatalClass(stderr.String()), c, "a result or an error", fmt.Sprintf("the process died (%v) while working on input #%d:\n%s", werr, idx, clipStr(stderr.String(), 3000)))
@@ -733,8 +801,9 @@ func runC08(run *core.Run) {
 	deepNestingProbe(run)
 	// (3b) characters that start no token
 	illegalCharInjection(run, run.N(1500, 30000))
+	illegalCharInModuleFiles(run, run.N(1500, 30000))
 	// (2) work bound
-	bin, err := buildCoverBinary(run)
+	bin, err := coverBinary(run)
 	if err != nil {
 		run.Inconclusive("coverage-instrumented build failed, the work bound was not measured: %v", err)
 		return
@@ -952,6 +1021,62 @@ func illegalCharInjection(run *core.Run, n int) {
 	})
 }
 
+// illegalCharInModuleFiles: the same through the modular entry points - one of several module files (unique type
+// names, so the set is conflict free; half of the sets give every entry the SAME file name, which the merger keys its
+// maps by) gets one unlexable character: TransformModuleFilesToModel and TransformModularDSLToProto must report it.
+func illegalCharInModuleFiles(run *core.Run, n int) {
+	illegal := []string{"$", "@", "^", "~", ";", "\\", "&", "|", "=", "`", "\x00", "\x7f", "é", "\u00a0"}
+	core.Parallel(n, func(i int) {
+		r := run.Rng("illegal-mod", i)
+		nf := 2 + r.Intn(3)
+		sameName := r.Intn(2) == 0
+		var files []transformer.ModuleFile
+		for k := 0; k < nf; k++ {
+			var sb strings.Builder
+			fmt.Fprintf(&sb, "module m%d\n", k%2)
+			for j := 0; j <= r.Intn(3); j++ {
+				fmt.Fprintf(&sb, "type t%d_%d\n", k, j)
+				if r.Intn(2) == 0 {
+					fmt.Fprintf(&sb, "  relations\n    define r: [t%d_0]\n    define s: r or r\n", k)
+				}
+			}
+			if k > 0 && r.Intn(2) == 0 {
+				fmt.Fprintf(&sb, "extend type t%d_0\n  relations\n    define x%d: [t%d_0]\n", k-1, k, k)
+			}
+			name := fmt.Sprintf("f%d.fga", k)
+			if sameName {
+				name = "same.fga"
+			}
+			files = append(files, transformer.ModuleFile{Name: name, Contents: sb.String()})
+		}
+		c := &core.Case{Kind: "c08:modfiles-literal"}
+		if m, err := transformer.TransformModuleFilesToModel(files, "1.2"); err != nil || m == nil {
+			run.Count("illegal_mod_base_sets_rejected", 1) // generator slip, not a finding: skip
+			return
+		}
+		victim := r.Intn(nf)
+		ch := illegal[r.Intn(len(illegal))]
+		txt := files[victim].Contents
+		p := r.Intn(len(txt) + 1)
+		files[victim].Contents = txt[:p] + ch + txt[p:]
+		for _, f := range files {
+			c.Files = append(c.Files, core.File{Name: f.Name, Contents: f.Contents})
+		}
+		run.Guard(c, func() {
+			m, err := transformer.TransformModuleFilesToModel(files, "1.2")
+			_, _, err2 := transformer.TransformModularDSLToProto(files[victim].Contents)
+			run.Eval(2)
+			run.Count("illegal_characters_injected_into_module_files", 1)
+			if err == nil || m != nil {
+				run.Violation("unlexable-character-accepted:TransformModuleFilesToModel", c, "an error", fmt.Sprintf("accepted; character %q at byte %d of entry #%d (%s)", ch, p, victim, files[victim].Name))
+			}
+			if err2 == nil {
+				run.Violation("unlexable-character-accepted:TransformModularDSLToProto", c, "an error", fmt.Sprintf("accepted; character %q at byte %d", ch, p))
+			}
+		})
+	})
+}
+
 // replayCorpusCrashers replays the committed crashers (corpus/*.json) through the totality monitors in process.
 func replayCorpusCrashers(run *core.Run) {
 	files, _ := filepath.Glob(filepath.Join(core.Root, "corpus", "*.json"))
@@ -989,6 +1114,15 @@ func replayC08(run *core.Run, c *core.Case) {
 		return
 	case c.Kind == "deep":
 		deepNestingProbe(run)
+		return
+	case stream == "modfiles-literal":
+		var files []transformer.ModuleFile
+		for _, f := range c.Files {
+			files = append(files, transformer.ModuleFile{Name: f.Name, Contents: f.Contents})
+		}
+		if m, err := transformer.TransformModuleFilesToModel(files, "1.2"); err == nil || m != nil {
+			run.Violation("unlexable-character-accepted:TransformModuleFilesToModel", c, "an error", "accepted")
+		}
 		return
 	case stream == "dsl-literal":
 		in = c08Input{Stream: "dsl", Text: c.Text}
